@@ -173,7 +173,7 @@ func WriteNDJSON(path string, evs []Ev, keep func(Ev) bool) (int, error) {
 }
 
 var kvEvents = map[string]bool{"Reset": true, "BeginCall": true, "Begin": true, "Op": true, "NewCur": true, "Cur": true, "CurDel": true,
-	"ForEach": true, "Dump": true, "End": true, "Backup": true, "Compact": true, "BStart": true, "Inv": true, "CallEnd": true, "Final": true, "EndBadResult": true, "Reopen": true, "BeginWrite": true, "EndWrite": true, "MetaWrite": true}
+	"ForEach": true, "Dump": true, "End": true, "Backup": true, "Compact": true, "CLIView": true, "BStart": true, "Inv": true, "CallEnd": true, "Final": true, "EndBadResult": true, "Reopen": true, "BeginWrite": true, "EndWrite": true, "MetaWrite": true}
 
 // KeepKV selects the events consumed by TraceKV.tla.
 func KeepKV(e Ev) bool { return kvEvents[e["ev"].(string)] }
